@@ -493,3 +493,23 @@ pub fn ed_sub(p: &[u8; 32], q: &[u8; 32]) -> Option<[u8; 32]> {
         None
     }
 }
+
+pub fn sc_invert(a: &[u8; 32]) -> Option<[u8; 32]> {
+    let mut r = [0u8; 32];
+    let rc = unsafe { so::crypto_core_ed25519_scalar_invert(r.as_mut_ptr(), a.as_ptr()) };
+    if rc == 0 {
+        Some(r)
+    } else {
+        None
+    }
+}
+
+pub fn ed_mult_noclamp(s: &[u8; 32], p: &[u8; 32]) -> Option<[u8; 32]> {
+    let mut r = [0u8; 32];
+    let rc = unsafe { so::crypto_scalarmult_ed25519_noclamp(r.as_mut_ptr(), s.as_ptr(), p.as_ptr()) };
+    if rc == 0 {
+        Some(r)
+    } else {
+        None
+    }
+}
